@@ -15,7 +15,7 @@ func main() {
 		th := tier == "thorough"
 		switch *prop {
 		case "C18":
-			return c18Scenarios(th)
+			return append(c18HTTPScenarios(th), c18Scenarios(th)...)
 		case "C17":
 			return c17Scenarios(th)
 		case "C19":
